@@ -295,7 +295,11 @@ def custom_fields(n, tier):
             continue
         fam = {'e': 'CUSTEX', 'o': 'CUSTOPT', 'c': 'CUSTNEST'}[kind]
         for lo in sorted({0, 1, n - w} & set(range(0, n - w + 1))):
-            out.append(Field([(lo, w)], family=fam, qualified=(lo == 1), form=('list1' if lo == 1 and w % 2 else 'auto'), **mk(kind, w)))
+            f0 = Field([(lo, w)], family=fam, qualified=(lo == 1), form=('list1' if lo == 1 and w % 2 else 'auto'), **mk(kind, w))
+            if kind == 'o' and lo != 1:
+                # `Option` written with a path: the same Rust type (the macro looks at the last path segment)
+                f0.opt_path = ('core::option::', '::core::option::', 'std::option::', '')[(w + lo + n) % 4]
+            out.append(f0)
         # arrays
         for stride in (w, w + 1):
             kmax = (n - w) // stride + 1
@@ -614,6 +618,13 @@ def debug_structs(tier):
                 fld.name = nm
                 fsn.append(fld)
             out.append(Struct(n, fsn, debug=True, twin=True, family='DBGNAMES', passes=p, keep_names=True))
+            # raw identifiers: the label may be printed as `r#type` or as `type` (the property does not say which), nothing else
+            fsr = []
+            for j, nm in enumerate(["r#type", "level", "r#mod", "r#fn"]):
+                fld = Field([(2 * j, 2)], 'u', family='DBGRAW')
+                fld.name = nm
+                fsr.append(fld)
+            out.append(Struct(n, fsr, debug=True, twin=True, family='DBGRAW', passes=p, keep_names=True))
     return out
 
 
@@ -719,6 +730,13 @@ def optional_structs(tier):
         for od in orders:
             out.append(Struct(n, [Field([(0, 1), (2, 1)], 'u', arr=(2, 4), family='OPTORDER', arg_order=od)], family='OPTORDER',
                               passes=[('full', 'full')] if n <= 16 else [('alpha', 'alpha')]))
+        # `Option` written with a path
+        for op in ('core::option::', '::core::option::', 'std::option::'):
+            pp = [('full', 'full')] if n <= 16 else [('alpha', 'alpha')]
+            out.append(Struct(n, [Field([(1, 3)], 'o', enum=ne_enum(3), family='OPTPATH', opt_path=op)], family='OPTPATH', passes=pp))
+            out.append(Struct(n, [Field([(0, 2)], 'o', enum=ne_enum(2), arr=(2, 3), family='OPTPATH', opt_path=op)], family='OPTPATH', passes=pp))
+            if n >= 16:
+                out.append(Struct(n, [Field([(n - 8, 8)], 'o', enum=ne_enum(8), family='OPTPATH', opt_path=op)], family='OPTPATH', passes=pp))
         out.append(Struct(n, [Field([(1, 3)], 'u', family='OPTORDER', arg_order='ars')], family='OPTORDER', passes=[('full', 'full')] if n <= 16 else [('alpha', 'alpha')]))
         out.append(Struct(n, [Field([(n - 1, 1)], 'b', family='OPTORDER', arg_order='ars')], family='OPTORDER', passes=[('full', 'full')] if n <= 16 else [('alpha', 'alpha')]))
     return out
